@@ -212,7 +212,7 @@ def run(ctx):
 
     # histories generated by TLC from the same module
     simdir = ctx.sub("sim")
-    nsim = 16 if q else 60
+    nsim = 16 if q else 100
     rs = V.tlc(ctx, "MC_ZWal", "MC_ZWal_gen.cfg", workers=1, timeout=300,
                simulate="file=%s,num=%d" % (os.path.join(simdir, "b"), nsim), depth=14, seed=ctx.seed, tag="sim")
     nfiles = len(os.listdir(simdir))
@@ -227,11 +227,11 @@ def run(ctx):
         _, files = drive(ctx, zr, "general", ["-seed", seed, "-sim", simdir, "-random", "12", "-len", "12",
                                                "-maximg", "10"], parts, stats, samples)
     else:
-        _, files = drive(ctx, zr, "general", ["-seed", seed, "-sim", simdir, "-random", "30", "-len", "14",
+        _, files = drive(ctx, zr, "general", ["-seed", seed, "-sim", simdir, "-random", "50", "-len", "14",
                                                "-maximg", "40"], parts, stats, samples)
         # every byte offset of the unsynced tail, every bit of every synced record header
-        drive(ctx, zr, "dense", ["-seed", str(ctx.seed + 100), "-random", "6", "-len", "7",
-                                  "-dense", "-imgevery", "3"], parts, stats, samples)
+        drive(ctx, zr, "dense", ["-seed", str(ctx.seed + 100), "-random", "12", "-len", "8",
+                                  "-dense", "-imgevery", "2"], parts, stats, samples)
         # entries larger than the 1 MB encode buffers (sampled offsets)
         drive(ctx, zr, "big", ["-seed", seed, "-random", "4", "-len", "7", "-big", "-maximg", "10", "-imgevery", "3"],
               4, stats, samples)
